@@ -16,6 +16,7 @@ RULE = ("single operations: every gate of the alphabet x every register width x 
         "sequence alphabet, through SymbolicSimulator and the base-class simulator with everything / nothing native. "
         "non-trivial = reference unitary differs from identity and (single ops) index tuple is not (0..k-1) on k qubits, "
         "(sequences) ops do not all commute trivially i.e. length >= 2; distinct = canonical case json")
+RULE += ' Round 7: answers of one simulator held until the history ends; roots of self-adjoint gates in the sequence alphabet; basis states carrying a phase as initial states.'
 RULE += ' Round 6: circuits of 63-257 operations (at once / concatenated halves); MultiPhaseOperations with uniform, zero, pi and two-valued angle tuples alone and between gates.'
 RULE += ' Round 5: registers of 7-10 qubits (asymmetric 2-/3-qubit gates on far-apart, descending and adjacent tuples through apply / lifted_matrix / to_unitary / the bundled simulator); one simulator object answering every history of 2 calls over 6 circuits x 3 initial states.'
 ASSUMPTIONS = ["numpy dense arithmetic is correct", "the gate's own numeric matrix (gate.matrix) is taken as given (C02/C07 decide it)",
@@ -208,6 +209,9 @@ def inits(n):
     for i in sorted({0, 1, 2 ** n - 1}):
         out.append(("e%d" % i, np.eye(2 ** n)[i].astype(complex)))
     out.append(("dense", dense_vec(n, 1)))
+    # basis states that carry a phase (one non-zero entry of modulus 1 that is not 1)
+    out.append(("i*e1", 1j * np.eye(2 ** n)[1].astype(complex)))
+    out.append(("phase*e_last", np.exp(0.3j) * np.eye(2 ** n)[2 ** n - 1].astype(complex)))
     return out
 
 
@@ -295,6 +299,7 @@ def sim_history(case):
     sim = SymbolicSimulator() if case["kind"] == "symbolic" else _scripted_sim(labels_by_id, log)
     init_by_name = dict(inits(n))
     k = 0
+    held = []      # every answer is kept until the history ends: a later call must not reach back into an answer already handed out
     for ci, init_name in case["calls"]:
         desc = pool[ci]
         c = built.get(ci) if case.get("reuse_objects", True) else None
@@ -312,6 +317,11 @@ def sim_history(case):
         if not _close(got, exp @ v0, atol=ATOL):
             return {**fail("call %d of the history on one simulator object: state != matrix of the circuit asked for @ the initial state asked for (init=%s)" % (k, init_name),
                            exp @ v0, got, "sim:history"), "ops": k}
+        held.append((k, wf, exp @ v0))
+    for k0, wf0, want in held:
+        now = np.asarray(wf0.amplitudes, dtype=complex).reshape(-1)
+        if not _close(now, want, atol=ATOL):
+            return {**fail("the wavefunction returned by call %d of a history on one simulator object changed after later calls" % k0, want, now, "sim:history-aliased"), "ops": k}
     return {"ok": True, "nt": len(case["calls"]) >= 2, "ops": k, "out": case["kind"]}
 
 
@@ -425,6 +435,9 @@ def ops3():
         out += [{"gate": g, "q": list(p)} for p in itertools.permutations(range(3), 2)]
     for g in (W("controlled", G("X"), k=2), G("custom3")):
         out += [{"gate": g, "q": list(p)} for p in itertools.permutations(range(3), 3)]
+    # roots of self-adjoint gates (their "dagger" is the same wrapper again - finding D15 - so a circuit must not reason with it), a dagger
+    out += [{"gate": W("power", G("X"), e="1/2"), "q": [0]}, {"gate": W("power", G("Z"), e="1/2"), "q": [2]}, {"gate": W("controlled", W("power", G("X"), e="1/2"), k=1), "q": [1, 0]},
+            {"gate": W("dagger", G("T")), "q": [0]}]
     return out
 
 
